@@ -144,6 +144,16 @@ func alphabet(rf *refForest) alpha {
 		}
 	}
 	a.hashes = append(a.hashes, empty, u.Hash{0xfe, 0xed})
+	// near misses: true hashes with one bit flipped at the end / at the start (a comparison on a prefix
+	// or a suffix of the hash must not pass for the whole hash)
+	for _, t := range rf.trees() {
+		if t.root != nil {
+			h1, h2 := t.root.hash, t.root.hash
+			h1[31] ^= 1
+			h2[0] ^= 1
+			a.hashes = append(a.hashes, h1, h2)
+		}
+	}
 	for p := uint64(0); p <= uint64(2)<<uint(rows)+1; p++ {
 		a.pos = append(a.pos, p)
 	}
@@ -264,7 +274,7 @@ func mutateHonest(e *emitter, rng *rand.Rand, blocks []hblock, rows []uint8, n i
 		hashes := append([]u.Hash{}, req...)
 		targets := append([]uint64{}, proof.Targets...)
 		pf := append([]u.Hash{}, proof.Proof...)
-		kind := rng.Intn(12)
+		kind := rng.Intn(13)
 		name := ""
 		switch kind {
 		case 0:
@@ -321,6 +331,35 @@ func mutateHonest(e *emitter, rng *rand.Rand, blocks []hblock, rows []uint8, n i
 		case 11:
 			name = "zero-target-hash"
 			hashes[rng.Intn(k)] = empty
+		case 12: // a root (or any node) claimed with a hash that differs only in its last / first byte
+			name = "near-miss-hash"
+			ps := allPos[rng.Intn(len(allPos))]
+			if rng.Intn(2) == 0 {
+				for _, pp := range allPos {
+					if nodes[pp].isRoot && nodes[pp].hash != empty {
+						ps = pp
+					}
+				}
+			}
+			h := nodes[ps].hash
+			if rng.Intn(2) == 0 {
+				h[31] ^= 0x80
+			} else {
+				h[3] ^= 1
+			}
+			hashes = []u.Hash{h}
+			targets = []uint64{ps}
+			rp, _ := rf.prove(nil)
+			_ = rp
+			pf = nil
+			if !nodes[ps].isRoot {
+				// honest sibling path of that node
+				p := ps
+				for !nodes[p].isRoot {
+					pf = append(pf, nodes[nodes[p].sib].hash)
+					p = nodes[p].parent
+				}
+			}
 		}
 		e.count("mut_" + name)
 		if verifyEverywhere(e, is, "mut."+name, hashes, targets, pf) {
@@ -425,6 +464,46 @@ func genC04(cfg runCfg, e *emitter, rng *rand.Rand) {
 			e.count(fmt.Sprintf("targets_%d", len(ts)))
 		}
 	}
+	// well-formed stumps that no history of this run reaches: huge leaf counts (up to 2^64-1) with
+	// popcount(NumLeaves) arbitrary roots; every entry point must return (no oracle state: totality only)
+	e.line("CASE hugestumps")
+	for _, n := range []uint64{1 << 62, 1<<62 + 5, 1 << 63, 1<<63 + 1, 1<<63 + 1<<20 + 3, ^uint64(0), ^uint64(0) - 1, 1<<40 + 1} {
+		var roots []u.Hash
+		for b := 63; b >= 0; b-- {
+			if n>>uint(b)&1 == 1 {
+				roots = append(roots, newLeaf())
+			}
+		}
+		st := u.Stump{Roots: roots, NumLeaves: n}
+		for j := 0; j < 6; j++ {
+			var ts []uint64
+			var hh []u.Hash
+			for x := 0; x < 1+rng.Intn(3); x++ {
+				t := []uint64{0, n - 1, n, 1 << 63, ^uint64(0), rng.Uint64()}[rng.Intn(6)]
+				ts = append(ts, t)
+				hh = append(hh, newLeaf())
+			}
+			var pf []u.Hash
+			for x := 0; x < rng.Intn(70); x++ {
+				pf = append(pf, newLeaf())
+			}
+			e.untrusted(fmt.Sprintf("NOPANIC hugestump.verify.n=%d", n), func() string {
+				return safeCall(func() string { _, err := u.Verify(st, hh, u.Proof{Targets: ts, Proof: pf}); return errStr(err) })
+			})
+			e.untrusted(fmt.Sprintf("NOPANIC hugestump.update.n=%d", n), func() string {
+				return safeCall(func() string {
+					cp := u.Stump{Roots: append([]u.Hash{}, st.Roots...), NumLeaves: st.NumLeaves}
+					_, err := cp.Update(hh, nil, u.Proof{Targets: ts, Proof: pf})
+					if err != nil && (cp.NumLeaves != st.NumLeaves || !eqHashes(cp.Roots, st.Roots)) {
+						e.hfail("atomic", "rejected Update changed a stump with %d leaves", n)
+					}
+					return errStr(err)
+				})
+			})
+			e.count("hugestump_calls")
+		}
+	}
+
 	// timing curve: many targets
 	e.line("CASE timing")
 	blocks := []hblock{{nil, freshLeaves(tierN(cfg, 3000, 20000))}}
